@@ -8,6 +8,11 @@
 From C03 Require Export Gen Helpers.
 Local Open Scope Z_scope.
 
+(* the C dialect of every supported build: -fwrapv iff the scraped base flags of BOTH supported compilers
+   contain it (cdefs.lua cflags_base is passed in every configuration: checked against the real command line by
+   C09); gcc's and clang's documented wrapping of signed `<<` is an assumption about the compilers *)
+Definition base_mode : cmode := mk_mode (gcc_base_has_fwrapv && clang_base_has_fwrapv) true.
+
 (* ------------------------------------------------------------------ *)
 (* Part 1: layout                                                      *)
 (* ------------------------------------------------------------------ *)
@@ -115,7 +120,10 @@ Definition static_assert_holds (t : ty) : bool :=
 
 (* well-formed type trees: primitives of the table, arrays of any length >= 0, records (packed or not,
    with or without fields) whose user alignment is a power of two up to 65536, unions - nested arbitrarily.
-   Nothing the analyzer accepts is left out any more (61ca8bb, bac28d6, 3c0ba5f). *)
+   Left out although the analyzer accepts them: <aligned(N)> with N not a power of two (the emitted C is
+   rejected by gcc and clang: known finding, witness replayed) and N > 65536 (a bound of this model only: gcc
+   and clang accept up to 2^28), 128-bit integers, and the type constructors [ty] does not have (enums, spans,
+   strings, function types, pointers to incomplete types). *)
 Definition is_pow2 (a : Z) : bool := (0 <? a) && (Z.land a (a - 1) =? 0).
 Fixpoint wfb (t : ty) : bool :=
   match t with
